@@ -40,6 +40,7 @@ EXITS = {
     "break-label": "if (t(92)) break OUT;",
     "continue-label": "if (t(93)) continue OUT;",
     "return": "if (t(94)) return 'R';",
+    "return-void": "if (t(98)) return;",
     "throw": "if (t(95)) throw 'T';",
     "throw-expr": "var z = 1 + (t(96) ? thrower('TE') : 0);",
     "throw-callee": "if (t(97)) thrower('TC');",
